@@ -20,16 +20,23 @@ theorem setters_own_field :
     BexprGen.Options.setters.contains ("WithLocalVariable", ["withLocalVariables+append"]) = true := by
   decide +kernel
 
-/-- defaults: budget 0, tag "bexpr", no unknown value (hook and locals are zero values) -/
+/-- defaults (of the function `getOpts` starts from): budget 0, tag "bexpr", no hook, no unknown
+    value, no local variables.  The table lists every field of struct `options`: the value the
+    defaults literal gives it or, for a field the literal leaves out, the zero value of its type
+    (`zero(T)` for a named type T: the hook's type is a function type of pointerstructure). -/
 theorem defaults_agree :
-    BexprGen.Options.defaults.length = 3 ∧
+    BexprGen.Options.defaults.length = 5 ∧
     BexprGen.Options.defaults.contains ("withMaxExpressions", "0") = true ∧
     BexprGen.Options.defaults.contains ("withTagName", "\"bexpr\"") = true ∧
+    BexprGen.Options.defaults.contains ("withHookFn", "zero(ValueTransformationHookFn)") = true ∧
     BexprGen.Options.defaults.contains ("withUnknown", "nil") = true ∧
+    BexprGen.Options.defaults.contains ("withLocalVariables", "nil") = true ∧
     BexprGen.Options.optionsFields.length = 5 := by
   decide +kernel
 
-/-- getOpts folds the options over the defaults and skips nil options -/
+/-- getOpts is `opts := F(); for _, o := range opt { if o != nil { o(&opts) } }; return opts` (or
+    the same loop written with `continue`): it folds the options over the defaults `F()` — a struct
+    that is a local variable of this call — and skips nil options -/
 theorem getOpts_shape : BexprGen.Options.getOptsSkipsNil = true := by decide +kernel
 
 /-- creation: every evaluator field is fed from its own option; the tree is the parse result -/
